@@ -390,6 +390,8 @@ BAD_INCLUDES = {
     "nested-missing": "integer :: ok1\ninclude 'nowhere.inc'\ninteger :: ok2\n",
     "inline-predoc": "integer :: ok1\ninteger :: x !> doc before\ninteger :: ok2\n",
     "undecodable": b"integer :: ok1\ninteger :: y\n! \xff\xfe\xfa\ninteger :: ok2\n",
+    "undecodable-doc": b"integer :: ok1\n!! caf\xe9 cr\xe8me\ninteger :: ok2\n!! \xff\xfe\n",
+    "undecodable-literal": b"integer :: ok1\ncharacter(9) :: c = 'caf\xe9'\ninteger :: ok2\n",
     "unterminated": "integer :: ok1\ncharacter(9) :: c = 'abc\ninteger :: ok2\n",
     "empty": "",
 }
@@ -458,10 +460,63 @@ def run_shared_include_case(st: Stats, case):
     st.stratum(stratum, bad)
 
 
+# ---- the whole run (markdown, pages, search index) with the damaged file present -----------------------------------------
+def run_full_case(st: Stats, case):
+    """A file that passes (or fails) the parser must not bring down a later stage either: FORD's own main() runs to the end."""
+    _, kind, detail, text = case
+    if kind == "shared-include":
+        files = dict(INC_BASE)
+        files["inc/shared.inc"] = BAD_INCLUDES[detail]
+        for u in ("u1", "u2"):
+            files[f"src/{u}.f90"] = f"module {u}\n  implicit none\n  integer :: own_{u}\n  include 'shared.inc'\nend module {u}\n"
+        opts = dict(include=["inc"], search=True)
+        name = "u1.f90"
+    else:
+        files = dict(BASE)
+        name = POSITIONS["between"]
+        files[f"src/{name}"] = text
+        opts = dict(search=True)
+    old_v = signal.signal(signal.SIGVTALRM, _alarm)
+    signal.setitimer(signal.ITIMER_VIRTUAL, WATCHDOG_S * 2)
+    hung, r = False, None
+    try:
+        r = fordrun.build(files, dict(display=["public", "private", "protected"], **opts), stage="write")
+    except Timeout:
+        hung = True
+    finally:
+        signal.setitimer(signal.ITIMER_VIRTUAL, 0)
+        signal.signal(signal.SIGVTALRM, old_v)
+    st.evaluations += 1
+    st.transitions += 1
+    stratum = f"full-run/{kind}"
+    shown = text if isinstance(text, str) else repr(text)
+    inp = dict(kind=kind, detail=detail, position="full-run", bad_file=name, text=(shown or "")[:3000], full_run=True)
+    feats = dict(kind=kind, detail=detail, position="full-run")
+    st.nontrivial.add(core.digest(["full", kind, detail]))
+    try:
+        if hung or r is None:
+            st.violation("hang", stratum, feats, inp, f"no result after {WATCHDOG_S * 2}s of CPU time", "terminates")
+            st.stratum(stratum, 1)
+        elif r.error is not None or r.stage_reached != "write":
+            st.violation("run-aborted", stratum, dict(feats, error_class=type(r.error).__name__, message=re.sub(r"'[^']*'", "'*'", str(r.error))[:60]), inp,
+                         (repr(r.error) + " " + r.log[-200:])[:400], "the documentation of the other files is written")
+            st.stratum(stratum, 1)
+        else:
+            ok = (r.out / "module" / "shapes.html").exists() if kind != "shared-include" else (r.out / "module" / "m_solver.html").exists()
+            if not ok:
+                st.violation("other-files-tree-changed", stratum, dict(feats, diff="page-missing"), inp, "the page of a valid module is missing", "pages of the valid files")
+            st.stratum(stratum, 0 if ok else 1)
+    finally:
+        if r is not None:
+            r.cleanup()
+
+
 def work(chunk):
     st = Stats()
     for case in chunk:
-        if case[0] == "shared-include":
+        if case[0] == "full":
+            run_full_case(st, case)
+        elif case[0] == "shared-include":
             run_shared_include_case(st, case)
         elif case[0] == "include":
             run_include_case(st, case)
@@ -471,6 +526,11 @@ def work(chunk):
 
 
 def gen_cases(tier):
+    for kind in BAD_INCLUDES:
+        yield ("full", "shared-include", kind, None)
+    for kind, detail, text in corruptions(tier):
+        if kind == "grammar":
+            yield ("full", kind, detail, text)
     for kind in BAD_INCLUDES:
         for nusers in (1, 2, 3):
             for fixed in (False, True):
@@ -488,6 +548,17 @@ def replay(path):
 
     core.use_repo()
     rec = json.loads(open(path).read())
+    if rec["input"].get("full_run"):
+        st = Stats()
+        i = rec["input"]
+        text = None
+        if i["kind"] != "shared-include":
+            text = next(t for (k, d, t) in corruptions("thorough") if k == i["kind"] and d == i["detail"])
+        run_full_case(st, ("full", i["kind"], i["detail"], text))
+        print(i["text"])
+        for v in st.violations:
+            print("REPRODUCED", v["clause"], v["observed"])
+        return 1 if st.violations else 0
     if rec["input"].get("shared_include_case"):
         st = Stats()
         install_baseline_for_includes()
